@@ -332,7 +332,10 @@ def r3_the_check(cx):
     b = F.body(f)
     fin = b.calls(r"crc::Digest<.*>::finalize$")
     upd = b.calls(r"crc::Digest<.*>::update$")
-    rd = b.calls(r"BigEndian as .*ByteOrder>::read_u32$")
+    one_shot = b.calls(r"crc::Crc::<.*>::checksum$|impl crc::Crc<.*>>::checksum$")
+    if not fin and not upd and len(one_shot) == 1:
+        fin = upd = one_shot      # `CRC.checksum(data)`: digest, update and finalize in one call (data is argument 1 too)
+    rd = b.calls(r"BigEndian as .*ByteOrder>::read_u32$|u32::from_be_bytes$")
     ok = len(fin) == 1 and len(upd) == 1 and len(rd) == 1
     cx.ob("R3", "R3/shape", ok, f, "assert_slice_crc: one digest update, one finalize, one BE::read_u32 (found %d/%d/%d)" % (len(upd), len(fin), len(rd)))
     if not ok:
@@ -379,6 +382,23 @@ def r3_the_check(cx):
     ro = b.origin_calls(rd[0][1]["args"][0])
     rng_to = any(call_is(t, r"RangeTo<usize>") for _, t in uo)
     rng_from = any(call_is(t, r"RangeFrom<usize>") for _, t in ro)
+    # `let (data, stored) = buf.split_at(len - 4)`: field 0 of the pair is digested, field 1 holds the stored CRC
+    sp = b.calls(r"\[u8\]>::split_at$|::split_at$|::split_last_chunk")
+    if sp and not (rng_to or rng_from):
+        sd = {("call", sp[0][0])}
+        def fld(op, want):
+            l = op_base_local(op)
+            for d in b.defs().get(l, []) if l is not None else []:
+                if d[0] == "stmt" and d[3]["k"] == "assign" and d[3]["rv"]["k"] in ("use", "ref"):
+                    pl = op_place(d[3]["rv"]["op"]) if d[3]["rv"]["k"] == "use" else d[3]["rv"]["pl"]
+                    fs = [e["f"] for e in (pl or {}).get("p", []) if isinstance(e, dict) and "f" in e]
+                    if pl is not None and fs[:1] == [want] and ("call", sp[0][0]) in b.origins({"cp": {"l": pl["l"]}}, through_calls=False):
+                        return True
+                    if pl is not None and not fs and fld({"cp": pl}, want):
+                        return True
+            return False
+        rng_to = fld(upd[0][1]["args"][1], 0)
+        rng_from = fld(rd[0][1]["args"][0], 1)
     cx.ob("R3", "R3/ranges", sub4 and rng_to and rng_from, f, "data = buf[..len-4] is digested, the stored CRC is read from buf[len-4..] (len-4: %s, ..n: %s, n..: %s)" % (sub4, rng_to, rng_from))
     # CRC parameters
     want = ref.REF["crc"]
